@@ -249,7 +249,11 @@ def run_item(item):
             return []
         try:
             vol = float(torch.as_tensor(Bd.build_tp(a).volume(prm_of(batch))).reshape(-1)[0])
-        except Exception:
+        except Exception as e:
+            # density sampling starts with volume(): a domain whose volume() raises cannot be sampled by density at all
+            if not is_deliberate(e):
+                viol("C01|error|%s|volume-for-density|%s" % (type(e).__name__, top_sig(a)),
+                     "volume(%s), the first step of every density sampling, raised %s: %s" % (batch, exc_sig(e), str(e)[:140]), {"ast": a})
             return []
         if not np.isfinite(vol) or vol <= 0:
             return []
